@@ -288,6 +288,19 @@ func aosToSwagger(a obj) obj {
 		}
 	}
 	op := obj{"operationId": "op", "parameters": params, "responses": resps}
+	var pathLevel []any
+	if v, ok := a["pathLevel"].(bool); ok && v {
+		// the simple parameters are declared at path level; a body parameter stays with the operation
+		keep := []any{}
+		for _, p := range params {
+			if pm, ok := p.(obj); ok && pm["in"] != "body" {
+				pathLevel = append(pathLevel, p)
+			} else {
+				keep = append(keep, p)
+			}
+		}
+		op["parameters"] = keep
+	}
 	if d, ok := a["opdesc"].(string); ok {
 		op["description"] = d
 	}
@@ -299,7 +312,11 @@ func aosToSwagger(a obj) obj {
 			op["x-"+k] = v
 		}
 	}
-	doc["paths"] = obj{path: obj{"post": op}, "/other": obj{"get": obj{"operationId": "other", "responses": obj{"200": obj{"description": "ok"}}}}}
+	pi := obj{"post": op}
+	if len(pathLevel) > 0 {
+		pi["parameters"] = pathLevel
+	}
+	doc["paths"] = obj{path: pi, "/other": obj{"get": obj{"operationId": "other", "responses": obj{"200": obj{"description": "ok"}}}}}
 	return doc
 }
 
